@@ -241,16 +241,26 @@ template <typename T>
 template <typename X>
 constexpr auto complex<T>::operator/=(complex<X> const& val) -> complex<T>&
 {
-    auto const norm = [](auto const& c) {
-        auto const x = c.real();
-        auto const y = c.imag();
-        return static_cast<T>(x * x + y * y);
-    };
+    // Smith's method: dividing through by the larger part of the divisor keeps c * c + d * d from
+    // overflowing or vanishing while the quotient itself is representable
+    auto const a = _real;
+    auto const b = _imag;
+    auto const c = static_cast<T>(val.real());
+    auto const d = static_cast<T>(val.imag());
 
-    auto const r = static_cast<T>(_real * val.real() + _imag * val.imag());
-    auto const n = norm(val);
-    _imag        = (_imag * val.real() - _real * val.imag()) / n;
-    _real        = r / n;
+    auto const absC = c < T(0) ? -c : c;
+    auto const absD = d < T(0) ? -d : d;
+    if (absC >= absD) {
+        auto const r   = d / c;
+        auto const den = c + d * r;
+        _real          = (a + b * r) / den;
+        _imag          = (b - a * r) / den;
+    } else {
+        auto const r   = c / d;
+        auto const den = c * r + d;
+        _real          = (a * r + b) / den;
+        _imag          = (b * r - a) / den;
+    }
     return *this;
 }
 
